@@ -293,6 +293,7 @@ func cmdCheck(args []string) {
 	}
 	var outs []runOut
 	var inconcl []string
+	enough := false
 	for _, hc := range runs {
 		if *only != "" && !strings.Contains(hc.Harness, *only) {
 			continue
@@ -313,11 +314,25 @@ func cmdCheck(args []string) {
 		for _, mo := range mos {
 			E := &Explorer{P: P, Run: &HarnessRun{Name: hc.Harness, Fn: fn, Params: hc.Params, MapOrder: mo, MaxPaths: hc.MaxPaths, MaxSteps: hc.MaxSteps},
 				SolverBin: solverBin, TimeoutMs: timeoutMs, Workers: *workers, Seed: seed, QuickMs: 2000, SolverMode: hc.Solver}
+			E.IsKnown = func(classes []string) bool { _, ok := isKnown(classes); return ok }
+			budget := 15 * time.Minute
+			if *tier == "thorough" {
+				budget = 90 * time.Minute
+			}
+			E.Deadline = time.Now().Add(budget)
 			if *tier == "thorough" && os.Getenv("VERIF_NO_XCHECK") == "" {
 				E.Transcripts = filepath.Join(work, fmt.Sprintf("tr.%d.%d", os.Getpid(), len(outs)))
 			}
+			if enough {
+				continue // an earlier harness already holds counterexamples outside the known findings
+			}
 			res := E.Explore()
 			outs = append(outs, runOut{hc, mo, res})
+			for _, m := range res.Inconcl {
+				if strings.HasPrefix(m, "stopped early:") {
+					enough = true
+				}
+			}
 			fmt.Printf("  %-28s maporder=%d paths=%d queries=%d solver=%.1fs wall=%.1fs violations=%d inconclusive=%d\n",
 				hc.Harness, mo, len(res.Paths), res.Stats.Queries, res.Stats.Time.Seconds(), res.Wall.Seconds(), len(res.Violations), len(res.Inconcl))
 			for _, m := range res.Inconcl {
@@ -804,7 +819,10 @@ func recordedAnswers(file string) []string {
 }
 
 func answersOf(bin, file string) []string {
-	cmd := exec.Command(bin, file)
+	// a soft limit per query (answers "unknown", which compares as unknown):
+	// the transcripts of the integer-mode primary hold queries that a
+	// bit-blasting solver does not finish, which is why that primary is used
+	cmd := exec.Command(bin, "-t:3000", file)
 	out, _ := cmd.Output()
 	var ans []string
 	for _, l := range strings.Split(string(out), "\n") {
